@@ -39,27 +39,6 @@ Definition spec_eff (f : fs) (fl : flags) : eff :=
 Definition spec_invalid (f : fs) (e : eff) : bool :=
   negb (lib_ok (e_lib e)) || negb (fs_exists f (e_project e)).
 
-(* C19-1: the section of the configuration file, completed with defaults, does not
-   validate on its own: the search loop then drops the whole file *)
-Fixpoint kf_file_invalid_in (f : fs) (ps : list string) : bool :=
-  match ps with
-  | [] => false
-  | p :: r =>
-      match fs_get f p with
-      | Some (NDoc (Some d)) =>
-          match load_doc d with
-          | Some c => match validate f c with Some _ => true | None => false end
-          | None => false
-          end
-      | _ => kf_file_invalid_in f r
-      end
-  end.
-Definition kf_file_invalid (f : fs) : bool := kf_file_invalid_in f cands.
-
-(* C19-6: verbose comes from the file only: the Logger stays quiet *)
-Definition kf_verbose_file_only (f : fs) (fl : flags) : bool :=
-  negb (f_verbose fl) && or_else (sec_bool (file_section f cands) "verbose") false.
-
 (* init must be refused when its settings are invalid *)
 Definition init_invalid (f : fs) (il : iflags) : bool :=
   negb (lib_ok (init_lib il)) || negb (fs_exists f (init_project il)).
